@@ -92,7 +92,7 @@ def run_main(file, cmd, ev, mod, flags):
         return "usage", log
 
 
-VALS = [None, "", "x = 1"]
+VALS = [None, "", "x = 1\\ny = '\u00e9 \\\\t'"]
 FLAGS = ["dis", "source", "dis_after", "no_normalize", "json"]
 
 
@@ -153,3 +153,6 @@ def h_main(ctx, cfg):
             srcs = [p for p in prints if isinstance(p, tuple) and p[0] == "SYNTAX"]
             ctx.prove("source_printed_iff_--source", z3.BoolVal(len(srcs) == (1 if flags["source"] else 0)))
     ctx.prove("cases_enumerated", z3.BoolVal(n == 81 * 32))
+    # two options carrying the *same* text are still two sources
+    outcome, log = run_main(None, "json", None, "json", dict(zip(FLAGS, [False] * 5)))
+    ctx.prove("equal_texts_in_two_options_are_two_sources", z3.BoolVal(outcome == "usage"))
